@@ -26,7 +26,7 @@ PARALLEL = 6
 IMPORTS = "From Verif Require Import C11.Model C11.Spec C11.Corr."
 CASE_TYPE = "C11.Corr.case"
 RUNNER = "C11.Corr.run"
-FINDING_CLASSES = {1: "C11-F1", 2: "C11-F2", 3: "C11-F3", 4: "C11-F4", 5: "C11-F5", 6: "C11-F6"}
+FINDING_CLASSES = {1: "C11-F1", 2: "C11-F2", 3: "C11-F3", 4: "C11-F4", 5: "C11-F5", 6: "C11-F6", 7: "C11-F7"}
 RULE = (
     "histories over random EntityDescriptor/EntitiesDescriptor documents (1-6 entities from a pool of 3 ids so that "
     "ids repeat, 1-3 role descriptors of the 5 role kinds, protocolSupportEnumeration in {2.0, 1.1, 1.1+2.0, x+2.0, "
@@ -47,7 +47,9 @@ ASSUMPTIONS = [
     "re-examined when time passes",
     "schema-invalid EntitiesDescriptor documents (role without its mandatory endpoint, indexed endpoint without index, "
     "AttributeConsumingService without RequestedAttribute) say nothing",
-    "MDQ answers are single EntityDescriptor documents (or garbage / foreign root / error status)",
+    "MDQ answers: single EntityDescriptor documents, garbage, foreign root, error status, and EntitiesDescriptor "
+    "documents (usable ones with the asked entity among others, expired ones, ones with an indexed endpoint lacking "
+    "index); under a certificate an MDQ answer counts as verified only if it is an EntityDescriptor with a valid signature",
     "every KeyDescriptor carries exactly one X509Certificate and no KeyName; every role descriptor carries "
     "protocolSupportEnumeration; a list-style imp() item names one source",
     "MetaDataMD (json dump) and MetaDataLoader sources are outside the quantifier (MetaDataLoader cannot be "
@@ -878,6 +880,15 @@ def g_mdq_resp(rng, eid, t0, cert):
         return {"st": rng.choice(["missing", "http"])}
     if r < 0.18:
         return {"st": rng.choice(["garbage", "wrongroot"])}
+    if r < 0.22:
+        return raising_group(rng, eid, t0)
+    if r < 0.30:       # a usable EntitiesDescriptor answer (the asked entity among others), any signature state
+        ids = [eid] + [rng.choice(IDS) for _ in range(rng.choice([0, 1, 2]))]
+        rng.shuffle(ids)
+        d = {"group": True, "vu": rng.choice([None, None, t0 + 10 ** 6]),
+             "ents": [g_ent(rng, i, t0, invalid_ok=rng.random() < 0.2) for i in ids]}
+        sig = rng.choice(["valid", "valid", "tampered", "wrongkey", "unsigned"]) if cert else rng.choice(["unsigned", "unsigned", "valid", "wrongkey"])
+        return doc_fetch(d, sig, rng.randint(0, 1))
     e = g_ent(rng, eid if rng.random() < 0.85 else rng.choice(IDS), t0, invalid_ok=True)
     d = {"group": False, "vu": None, "ents": [e]}
     if cert:
@@ -885,6 +896,17 @@ def g_mdq_resp(rng, eid, t0, cert):
     else:
         sig = rng.choice(["unsigned", "unsigned", "valid", "wrongkey"])
     return doc_fetch(d, sig, rng.randint(0, 1))
+
+
+def raising_group(rng, eid, t0):
+    """An EntitiesDescriptor answer on which parse() raises (outside what the MDQ code supports): expired
+    validUntil (TooOld) or an indexed endpoint without index (MustValueError)."""
+    if rng.random() < 0.5:
+        e = g_ent(rng, eid, t0, invalid_ok=False)
+        return doc_fetch({"group": True, "vu": t0 - 5, "ents": [e]})
+    e = {"id": eid, "vu": None, "affil": False, "attrs": [], "regs": [],
+         "roles": [{"kind": K_SP, "protos": [SAML2P], "svcs": [[N_ACS, P, g_loc(rng), None]], "keys": [], "acs": []}]}
+    return doc_fetch({"group": True, "vu": None, "ents": [e]})
 
 
 def fam_mdq(rng, n, t0=T0):
@@ -944,6 +966,9 @@ def fam_witness(t0=T0):
         {"op": "server", "tbl": [["urn:e1", _single(inel, "valid")]]}, mdq(True),
         {"op": "server", "tbl": [["urn:e2", _single(_idp_ent("urn:e1", "https://evil.example.org/sso", R), "tampered")]]},
         {"op": "tick", "dt": 10}], t0, ["urn:e1", "urn:e2"]))
+    out.append(mk("witness", [                                                                     # 7
+        {"op": "server", "tbl": [["urn:e1", doc_fetch({"group": True, "vu": t0 - 5, "ents": [a]})]]}, mdq(False),
+        load(inl(), _single(a))], t0, uni))
     sp = {"id": "urn:e2", "vu": t0 + 100000, "affil": False,
           "attrs": [[ENTITY_CATEGORY, ["http://cat.example.org/1"]]],
           "regs": [{"auth": "http://ra1.example.org", "inst": None, "pols": [["en", "http://ra.example.org/pol1"]]}],
